@@ -12,7 +12,7 @@ import tlc
 
 SEEDS = [0, 1, 42, 2 ** 31 - 1, 2 ** 63, -5, 10 ** 30]
 HOOKS = ['setUp', 'tearDown', 'testSetUp', 'testTearDown']
-NAMES = ['La', 'Lb', 'Lz', 'M1', 'm2', 'Zeta', '_x']
+NAMES = ['La', 'Lb', 'Lz', 'M1', 'm2', 'Zeta', '_x', 'zz_a', 'zz_b']     # zz_*: dotted name sorts after the unit layer's
 
 
 def make_world(wid, rng):
@@ -95,6 +95,9 @@ def bundle(bid, rng, seed, tier):
             add('py%s:list' % ver, 'inproc', sargs + ['--list-tests'], py=ver)
         lnames = list(w['layers'])
         if lnames:
+            # the other filters that drop whole layers after shuffling
+            add('nonunit-filter:list', 'inproc', sargs + ['--list-tests', '-f'])
+            add('unit-filter:list', 'inproc', sargs + ['--list-tests', '-u'])
             sub = rng.sample(lnames, rng.randint(1, len(lnames)))
             add('layer-filter:list', 'inproc', sargs + ['--list-tests'] + sum([['--layer', 'tests.%s$' % l] for l in sub], []))
             add('layer-filter:run', 'inproc', sargs + sum([['--layer', 'tests.%s$' % l] for l in sub], []))
